@@ -11,12 +11,13 @@ from . import simcommon as SC
 from .c05 import shapes
 from .c08 import compare_obs
 
-MODULES = ['TickitModel.Props.C09', 'TickitModel.Props.C05', 'TickitModel.Props.C06']
-THEOREMS = ['nesting_transparent_initial', 'nesting_transparent_initial_fuel', 'nesting_transparent_run', 'nesting_transparent_run_fuel', 'nesting_transparent_run_stims', 'resolveFuel_sufficient', 'flatten_devices', 'external_passes_inputs', 'expose_collects_outputs', 'tickLevel_once', 'initial_tick_complete', 'system_callback_is_min', 'nestedDue_exact']
+MODULES = ['TickitModel.Props.C09', 'TickitModel.Props.C05', 'TickitModel.Props.C06', 'TickitModel.Props.AnyTransfer']
+THEOREMS = ['nesting_transparent_initial', 'nesting_transparent_initial_fuel', 'nesting_transparent_run', 'nesting_transparent_run_fuel', 'nesting_transparent_run_stims', 'resolveFuel_sufficient', 'flatten_devices', 'external_passes_inputs', 'expose_collects_outputs', 'tickLevel_once', 'initial_tick_complete', 'system_callback_is_min', 'nestedDue_exact',
+            'any_order_flatten_valid', 'any_order_nesting_transparent_initial', 'any_order_nesting_transparent_run', 'any_order_nesting_transparent_run_fuel', 'any_order_flatten_run_exists']
 ANCHORS = ["src/tickit/core/management/schedulers/nested.py", "src/tickit/core/components/system_component.py",
            "src/tickit/core/management/schedulers/base.py", "src/tickit/core/management/ticker.py"]
 TECHNIQUE = 'Lean 4 theorem: for every valid configuration tree (any depth) the whole-simulation model run on the nested configuration and on its mechanical flattening have the same tick times and the same per-device (time, inputs) observations, initial tick and any number of callback ticks (device-level tick equations for nested ticks + uniqueness by rank induction) + nested vs flattened runs of the real code validated against the model'
-LEVEL_TEXT = "Proved over the executable whole-simulation model (nested schedulers at unbounded depth, devices as oracles), for every structurally valid configuration: if the nested run completes, so does the run of the mechanically flattened configuration (external / exposed ports replaced by direct wires; the resolution fuel bound is proved sufficient, after a counterexample to a smaller bound), with the same tick times and real start times and, for every device, the same sequence of (time, inputs) observations - for the initial tick and for any number of callback ticks: values cross system boundaries in both directions and through pass-through ports within the same tick, and callbacks requested inside a system are served at exactly the requested time (system entry = minimum inner wakeup). The proof goes through device-level tick equations for arbitrary nested ticks and their uniqueness on the acyclic resolved wiring. Histories WITH interrupts between ticks are covered as well (nesting_transparent_run_stims) for stimuli on devices that never request a callback or re-request one at every update (the property's restriction, shown necessary by a build-time counterexample), and that are 'timely' (the interrupt's stamp is not later than the earliest pending wakeup - it can be only when a stimulus arrives at the very instant a tick is due with speed > 1 or a callback lies in the past; counterexample kept as #guard). PARTIAL: interrupts arriving mid-tick are outside the model (validated on the real code: checked for being served). The model answers dispatches first-in first-out; other orders are C08's subject. Tie to the code: every generated nesting (depth <= 3, siblings, system-in-system, pass-through expose, no inputs / no expose) and its flattening are BOTH run on the real code under two buses, must give identical per-device observations, and both must agree with the Lean model; the Lean and Python flattenings are compared; the model itself is run nested and flattened."
+LEVEL_TEXT = "Proved over the executable whole-simulation model (nested schedulers at unbounded depth, devices as oracles), for every structurally valid configuration: if the nested run completes, so does the run of the mechanically flattened configuration (external / exposed ports replaced by direct wires; the resolution fuel bound is proved sufficient, after a counterexample to a smaller bound), with the same tick times and real start times and, for every device, the same sequence of (time, inputs) observations - for the initial tick and for any number of callback ticks: values cross system boundaries in both directions and through pass-through ports within the same tick, and callbacks requested inside a system are served at exactly the requested time (system entry = minimum inner wakeup). The proof goes through device-level tick equations for arbitrary nested ticks and their uniqueness on the acyclic resolved wiring. Histories WITH interrupts between ticks are covered as well (nesting_transparent_run_stims) for stimuli on devices that never request a callback or re-request one at every update (the property's restriction, shown necessary by a build-time counterexample), and that are 'timely' (the interrupt's stamp is not later than the earliest pending wakeup - it can be only when a stimulus arrives at the very instant a tick is due with speed > 1 or a callback lies in the past; counterexample kept as #guard). PARTIAL: interrupts arriving mid-tick are outside the model (validated on the real code: checked for being served). The model answers dispatches first-in first-out; other orders are C08's subject. Tie to the code: every generated nesting (depth <= 3, siblings, system-in-system, pass-through expose, no inputs / no expose) and its flattening are BOTH run on the real code under two buses, must give identical per-device observations, and both must agree with the Lean model; the Lean and Python flattenings are compared; the model itself is run nested and flattened. FOR ANY ANSWER ORDER AT EVERY NESTING LEVEL (every scheduler level answers its pending dispatches in ANY order, a system component's answer is any such execution of its inner level; Core/SimAny; none of these corollaries assumes that the first-in first-out model succeeds - that follows from the existence of the execution) (Props/AnyTransfer): ANY any-order run of a valid nested configuration and ANY any-order run of its flattening (callback histories; same oracle, initial time, speed, bounds) have the same simulation and real tick times and the same per-device observations (any_order_nesting_transparent_run, _initial, _fuel), and the flattening has a run whenever the nested configuration has one (any_order_flatten_run_exists)."
 LEVEL_NOTE = 'Trusts: Lean kernel; hand-written nested model and flattening (tied by trace validation and by comparing the two flattenings); interrupts beyond the theorem are validated by sampling.'
 ASSUMPTIONS = ["valid configurations (Static.Valid): unique names, every level's wiring well-formed, one source per input, acyclic; nothing wired into `external` or out of `expose`; no component named ''", 'theorem with interrupts: stimuli name devices, are InterruptSafe (quiet or periodic) and timely; mid-tick interrupts are validated only']
 
